@@ -106,8 +106,8 @@ def shapes(tier):
     if tier == 'thorough':
         A6 = [cbA, cbB, cbA, spS, sp1b, sp1]           # heights 0..5, one symbolic script
         A6c = [cbA, cbB, cbA, sp1, sp1b, sp1]          # the same, concrete
-        # sized: 'stay' with a symbolic script or with depth 3 ran for more than 15 minutes per shape (measured twice)
-        out.append({'A': A6c, 'fork': 4, 'B': [sp1, cbB], 'A_ext': [cbB, cbA, cbB], 'cont': 'stay'})
+        # sized: the 'stay' continuation on a 6-block chain (spend selectors multiply the paths), with a symbolic script or
+        # with depth 3 ran for more than 15 minutes per shape (measured three times); 'stay' is covered on the 4-block chain
         out.append({'A': A6, 'fork': 3, 'B': [sp1, cbB, cbA], 'A_ext': [cbB, cbA], 'cont': 'back'})
         out.append({'A': A4, 'fork': 2, 'B': [spS, cbA], 'A_ext': [sp1, cbA], 'cont': 'back'})
         out.append({'A': A6, 'forced': 3, 'A_ext': [cbB], 'cont': 'forced'})
